@@ -614,18 +614,24 @@ pub fn get_value(
         Some(Function::Substring) => {
             let string = String::from(&function_arg);
 
-            let mut pos: i32 = match &function_args.is_empty() {
-                true => 0,
-                false => *&function_args[0].parse::<i32>().unwrap() - 1,
+            let mut pos: i32 = match function_args.first() {
+                None => 0,
+                Some(pos) => match pos.parse::<i32>() {
+                    Ok(pos) => pos.saturating_sub(1),
+                    _ => return Variant::empty(VariantType::String),
+                },
             };
 
             if pos < 0 {
                 let string_length = string.chars().count() as i32;
-                pos = string_length - pos.abs() + 1;
+                pos = string_length.saturating_sub(pos.saturating_abs()).saturating_add(1).max(0);
             }
 
             let len = match &function_args.get(1) {
-                Some(len) => len.parse::<usize>().unwrap(),
+                Some(len) => match len.parse::<usize>() {
+                    Ok(len) => len,
+                    _ => return Variant::empty(VariantType::String),
+                },
                 _ => 0,
             };
 
@@ -638,6 +644,10 @@ pub fn get_value(
         }
         Some(Function::Replace) => {
             let source = function_arg;
+            if function_args.len() < 2 {
+                return Variant::empty(VariantType::String);
+            }
+
             let from = &function_args[0];
             let to = &function_args[1];
 
@@ -676,7 +686,10 @@ pub fn get_value(
             match function_arg.parse::<f64>() {
                 Ok(val) => {
                     let power = match function_args.first() {
-                        Some(power) => power.parse::<f64>().unwrap(),
+                        Some(power) => match power.parse::<f64>() {
+                            Ok(power) => power,
+                            _ => return Variant::empty(VariantType::String),
+                        },
                         _ => 0.0,
                     };
 
@@ -693,7 +706,10 @@ pub fn get_value(
             match function_arg.parse::<f64>() {
                 Ok(val) => {
                     let base = match function_args.first() {
-                        Some(base) => base.parse::<f64>().unwrap(),
+                        Some(base) => match base.parse::<f64>() {
+                            Ok(base) => base,
+                            _ => return Variant::empty(VariantType::String),
+                        },
                         _ => 10.0,
                     };
 
@@ -780,9 +796,13 @@ pub fn get_value(
                 return Variant::empty(VariantType::String);
             }
 
-            let seconds = function_arg.parse::<u64>().unwrap();
-            let formatted = Duration::from_secs(seconds).to_human_time_string();
-            Variant::from_string(&formatted)
+            match function_arg.parse::<u64>() {
+                Ok(seconds) => {
+                    let formatted = Duration::from_secs(seconds).to_human_time_string();
+                    Variant::from_string(&formatted)
+                }
+                _ => Variant::empty(VariantType::String),
+            }
         }
 
         // ===== Datetime functions =====
@@ -921,10 +941,21 @@ pub fn get_value(
             match function_arg.parse::<i64>() {
                 Ok(val) => {
                     if function_args.is_empty() {
+                        if val <= 0 {
+                            error_exit(
+                                "Upper limit of RANDOM function must be positive",
+                                function_arg.as_str(),
+                            );
+                        }
+
                         Variant::from_int(rng.random_range(0..val))
                     } else {
                         let limit = function_args.first().unwrap();
                         match limit.parse::<i64>() {
+                            Ok(limit) if limit <= val => error_exit(
+                                "Upper limit of RANDOM function must be greater than the lower one",
+                                limit.to_string().as_str(),
+                            ),
                             Ok(limit) => Variant::from_int(rng.random_range(val..limit)),
                             _ => error_exit(
                                 "Could not parse limit argument of RANDOM function",
